@@ -724,7 +724,9 @@ impl<'a> FnWeaver<'a> {
         let hints = self.c.hints.clone();
         for h in hints.iter() {
             if let Some(v) = h.anchor.strip_prefix("after-let ") {
-                if self.binds.get(v.trim()) == Some(&name) && self.bind_matches_local(v.trim(), l) {
+                let v = v.trim();
+                let is_guard = v.strip_prefix("$guard").and_then(|n| n.parse::<usize>().ok()).map(|n| self.guards.get(n - 1) == Some(&name) && self.is_guard_call(&init.expr)).unwrap_or(false);
+                if is_guard || (self.binds.get(v) == Some(&name) && self.bind_matches_local(v, l)) {
                     let t = self.subst(&h.text);
                     self.ghost(hi(l.span()), format!(" {} ", t), 0);
                 }
